@@ -10,8 +10,8 @@ from vlib.engine import Prop, Failure
 from props import msagen as G
 
 ROUNDTRIP_PROVED = ["afa", "phylip", "phylips", "clustal", "clustallike", "psiblast", "a2m (consensus and insert columns, reader padding)", "selex (with #=RF/#=CS/#=MM/#=SS/#=SA)",
-                    "pfam and stockholm multi-block (names, rows, parsed #=GC, comments, #=GF incl. unparsed tags and cut-off flags)"]
-ROUNDTRIP_NOT_PROVED = ["round-trip THEOREM missing (executable writer + reader models compared with the library, monitors only): stockholm/pfam with unparsed #=GC, #=GS, #=GR; "
+                    "pfam and stockholm multi-block (names, rows, parsed and unparsed #=GC, comments, #=GF incl. unparsed tags and cut-off flags, #=GR incl. unparsed tags under grOrderOk, #=GS AC/DE/unparsed tags under gsOrderOk)"]
+ROUNDTRIP_NOT_PROVED = ["round-trip THEOREM missing (executable writer + reader models compared with the library, monitors only): stockholm/pfam weights (#=GS WT) and multi-line #=GS values; "
                         "numeric value of weights / cut-offs", "autodetection of SELEX / PSI-BLAST / PHYLIP output (monitors only)"]
 MODELLED = ["afa", "a2m", "psiblast", "clustal", "clustallike", "phylip", "phylips", "selex", "stockholm", "pfam"]      # writer + reader models, bytes and re-read alignment compared
 WRITER_ONLY = []
@@ -78,6 +78,20 @@ A2M_INS_LEMMAS = ('a2mRead_write_ins', 'a2mRead_writeLines_ins', 'a2mInsTextWrit
                   'a2mWrite_projectIns_text', 'a2mWrite_projectIns_digital', 'a2mProjectIns_eq_project', 'a2mWritable_ins', 'a2mInsRow_text', 'a2mInsRow_digital')
 
 
+STO_ANN_THEOREMS = ('stockholm_roundtrip_gc', 'stockholm_roundtrip_gr', 'stockholm_roundtrip_gs_partial', 'stockholm_roundtrip_full_partial',
+                    'exStoGc_writable', 'exStoGr_writable', 'exStoGs_writable')
+READ_DOMAIN_THEOREMS = ('a2mCfg_valid_of', 'a2m_read_in_domain_digital', 'a2m_read_in_domain_text', 'a2m_reformat_idempotent_text', 'a2m_reformat_stable_digital',
+                        'a2m_reformat_stable_digital_of_lines', 'a2m_reformat_stable_text', 'a2m_reformat_stable_text_of_lines', 'afaCfg_valid_of',
+                        'afa_read_in_domain_digital', 'afa_read_in_domain_text', 'afa_reformat_stable_digital', 'afa_reformat_stable_digital_of_lines',
+                        'afa_reformat_stable_text', 'afa_reformat_stable_text_of_lines', 'clustalCfg_valid_of', 'clustal_read_in_domain_digital',
+                        'clustal_read_in_domain_text', 'clustal_reformat_stable_digital', 'clustal_reformat_stable_text', 'psiblastCfg_valid_of',
+                        'psiblast_read_in_domain_digital', 'psiblast_read_in_domain_text', 'psiblast_reformat_stable_digital_partial',
+                        'psiblast_reformat_stable_text_partial')
+READ_DOMAIN_LEMMAS = ('a2mRead_nd', 'a2mRead_domain_text', 'a2mRead_domain_digital', 'a2mHdrOkB_of_lines', 'afaRead_nd', 'afaRead_domain_text', 'afaRead_domain_digital',
+                      'afaHdrOkB_of_lines', 'clustalRead_nd', 'clustalRead_domain_text', 'clustalRead_domain_digital', 'psiblastRead_nd', 'psiblastRead_domain_text',
+                      'psiblastRead_domain_digital')
+
+
 class C03(Prop):
     id = "C03"
     lean_modules = ["EaselModel.Props.C03", "EaselModel.Msafile.WriteLemmas"]
@@ -88,7 +102,7 @@ class C03(Prop):
         "afa_rewrite_same_text", "afa_rewrite_same_digital",
         "phylip_strtoi32_natDec", "phylips_roundtrip_text", "phylips_roundtrip_digital", "phylips_roundtrip", "phylip_roundtrip_text", "phylip_roundtrip_digital",
         "phylip_roundtrip", "phylips_write_accepted", "phylip_write_accepted", "phylip_rewrite_same_text", "phylip_rewrite_same_digital",
-        "phylip_preserves_names_rows", "phylip_write_deterministic") + ('stockholm_write_deterministic', 'stoDigSymOk_of', 'pfam_roundtrip_plain_text', 'pfam_roundtrip_plain_digital', 'stockholm_roundtrip_plain_text', 'stockholm_roundtrip_plain_digital', 'stockholm_roundtrip_plain', 'stockholm_write_accepted', 'stockholm_preserves_names_rows', 'exSto_plain', 'exSto_writable', 'exStoDna_writable', 'exSto201_writable', 'stockholm_roundtrip_gc_gf', 'exStoAnn_writable', 'stockholm_roundtrip_header', 'cutoff_token_accepted', 'stockholm_rewrite_same', 'stockholm_rewrite_same_text', 'stockholm_rewrite_same_digital') + ('selex_write_deterministic', 'selexDigSymOk_of', 'selex_roundtrip_plain_text', 'selex_roundtrip_plain_digital', 'selex_roundtrip_plain', 'selex_write_accepted', 'selex_write_accepted_digital', 'selex_preserves_names_rows', 'selex_rewrite_same', 'selex_rewrite_same_digital', 'exSlx_plain', 'exSlx_writable', 'exSlxDna_writable', 'a2m_write_deterministic', 'a2mDigSymOk_of', 'a2m_roundtrip_text', 'a2m_roundtrip_digital', 'a2m_roundtrip', 'a2m_write_accepted', 'a2m_write_accepted_digital', 'a2m_rows_text', 'a2m_preserves_names_rows', 'a2m_rows_digital', 'a2m_rewrite_same_text', 'a2m_rewrite_same_digital', 'lt_two_cases', 'exA2m_writable', 'exA2mDna_writable') + ('clustal_write_deterministic', 'cluDigSymOk_of', 'clustal_roundtrip_text', 'clustal_roundtrip_digital', 'clustal_roundtrip', 'clustal_write_accepted', 'clustal_rewrite_same_text', 'clustal_rewrite_same_digital', 'clustal_preserves_names_rows', 'exClu1_writable', 'exClu_writable', 'exCluDna_writable', 'psiblast_write_deterministic', 'psiblast_roundtrip_text', 'psiDigSymOk_of', 'psiblast_roundtrip_digital', 'psiblast_roundtrip', 'psiblast_write_accepted', 'psiblast_rewrite_same_text', 'psiblast_preserves_names_rows', 'exPsi1_writable', 'exPsi_writable', 'exPsiDna_writable') + AUTODETECT_THEOREMS + SELEX_ANN_THEOREMS + A2M_INS_THEOREMS] + ["EaselModel.Msafile." + t for t in A2M_INS_LEMMAS] + [
+        "phylip_preserves_names_rows", "phylip_write_deterministic") + ('stockholm_write_deterministic', 'stoDigSymOk_of', 'pfam_roundtrip_plain_text', 'pfam_roundtrip_plain_digital', 'stockholm_roundtrip_plain_text', 'stockholm_roundtrip_plain_digital', 'stockholm_roundtrip_plain', 'stockholm_write_accepted', 'stockholm_preserves_names_rows', 'exSto_plain', 'exSto_writable', 'exStoDna_writable', 'exSto201_writable', 'stockholm_roundtrip_gc_gf', 'exStoAnn_writable', 'stockholm_roundtrip_header', 'cutoff_token_accepted', 'stockholm_rewrite_same', 'stockholm_rewrite_same_text', 'stockholm_rewrite_same_digital') + ('selex_write_deterministic', 'selexDigSymOk_of', 'selex_roundtrip_plain_text', 'selex_roundtrip_plain_digital', 'selex_roundtrip_plain', 'selex_write_accepted', 'selex_write_accepted_digital', 'selex_preserves_names_rows', 'selex_rewrite_same', 'selex_rewrite_same_digital', 'exSlx_plain', 'exSlx_writable', 'exSlxDna_writable', 'a2m_write_deterministic', 'a2mDigSymOk_of', 'a2m_roundtrip_text', 'a2m_roundtrip_digital', 'a2m_roundtrip', 'a2m_write_accepted', 'a2m_write_accepted_digital', 'a2m_rows_text', 'a2m_preserves_names_rows', 'a2m_rows_digital', 'a2m_rewrite_same_text', 'a2m_rewrite_same_digital', 'lt_two_cases', 'exA2m_writable', 'exA2mDna_writable') + ('clustal_write_deterministic', 'cluDigSymOk_of', 'clustal_roundtrip_text', 'clustal_roundtrip_digital', 'clustal_roundtrip', 'clustal_write_accepted', 'clustal_rewrite_same_text', 'clustal_rewrite_same_digital', 'clustal_preserves_names_rows', 'exClu1_writable', 'exClu_writable', 'exCluDna_writable', 'psiblast_write_deterministic', 'psiblast_roundtrip_text', 'psiDigSymOk_of', 'psiblast_roundtrip_digital', 'psiblast_roundtrip', 'psiblast_write_accepted', 'psiblast_rewrite_same_text', 'psiblast_preserves_names_rows', 'exPsi1_writable', 'exPsi_writable', 'exPsiDna_writable') + AUTODETECT_THEOREMS + SELEX_ANN_THEOREMS + A2M_INS_THEOREMS + STO_ANN_THEOREMS + READ_DOMAIN_THEOREMS] + ["EaselModel.Msafile." + t for t in A2M_INS_LEMMAS + READ_DOMAIN_LEMMAS] + [
         "EaselModel.Msafile.afaRead_write", "EaselModel.Msafile.stoRead_write", "EaselModel.Msafile.splitLines_join", "EaselModel.Msafile.afaDigitalWritable_writable",
         "EaselModel.Msafile.guess_stockholmWrite", "EaselModel.Msafile.guess_clustalWrite", "EaselModel.Msafile.guess_afaWrite", "EaselModel.Msafile.guess_a2mWrite", "EaselModel.Msafile.cutsetOf_eq", "EaselModel.Msafile.head_steps", "EaselModel.Msafile.fmtF1_realTok", "EaselModel.Msafile.stockholmWrite_project", "EaselModel.Msafile.phylipWriteW_unset", "EaselModel.Msafile.phylipWriteW_default"] + [
         "EaselModel.Msafile." + t for t in ("stockholmWrite_eq", "stockholmWrite_magic", "blockStarts_length", "blockStarts_lt", "stockholm_blocks", "pfam_blocks",
@@ -107,7 +121,10 @@ class C03(Prop):
                   "line the reader synthesises; O written as X; every column a consensus column or all '-'), A2M INCLUDING insert columns (names, descriptions; consensus columns upper-cased / '-', O as X; insert residues lower-cased, left-justified "
                   "in each inter-consensus run and padded with '.' / the gap code to the longest run, all-gap insert columns dropped, rf = x on consensus and . on insert columns: "
                   "`a2mProjectIns`, which equals the insert-free `a2mProject` when every column is a consensus column), SELEX with #=RF/#=CS/#=MM and per-sequence #=SS/#=SA (any number of 60-column blocks), Pfam and multi-block Stockholm with names, rows, the five parsed #=GC lines, "
-                  "comments, #=GF ID/AC/DE/AU, unparsed #=GF tags in order, and which score cut-offs are set; for each: the output is a function of the alignment (`_write_deterministic`), is "
+                  "unparsed #=GC tags, comments, #=GF ID/AC/DE/AU, unparsed #=GF tags in order, which score cut-offs are set, per-residue #=GR SS/SA/PP and unparsed #=GR tags "
+                  "(hypothesis grOrderOk: first-mention order of the tags = their order), per-sequence #=GS AC/DE and unparsed #=GS tags (hypothesis gsOrderOk: the first #=GS kind "
+                  "written covers every sequence - both hypotheses are shown NECESSARY by proved counter-examples exStoGrBad / exStoGsBad = the known finding first-mention-order) "
+                  "[stockholm_roundtrip_full_partial: everything except weights]; for each: the output is a function of the alignment (`_write_deterministic`), is "
                   "accepted, the next read is EOF and the re-read alignment is well formed (`_write_accepted`), what is preserved exactly (`_preserves_names_rows`, `selex_ann_preserves`, "
                   "`a2m_rows_text/digital`), and write(read(write m)) = write m (`_rewrite_same`, text and digital; Stockholm for ANY annotation without weights/cut-offs). Autodetection of "
                   "library-written Stockholm/Pfam, Clustal, Clustal-like, aligned FASTA output selects the format for EVERY alignment, and open(auto) + read gives the same alignment "
@@ -116,8 +133,12 @@ class C03(Prop):
                   "re-read alignment field by field, second read, re-written bytes; each writer is called through esl_msafile_Write AND directly. ALL ten formats x text/amino/DNA/RNA are "
                   "additionally monitored on the real ASan/UBSan/LSan-built library: write -> read (declared and autodetected) -> field-by-field comparison under each format's conventions "
                   "(Stockholm/Pfam: every field incl. weight and cut-off values) -> re-write and byte comparison. "
-                  "NOT PROVED (monitors + executable models only): Stockholm/Pfam with unparsed #=GC, #=GS (accessions, descriptions, weights, other tags) and #=GR lines; A2M with separate "
-                  "accessions; numeric VALUE of weights and cut-offs (the reader model keeps set/unset); autodetection of SELEX/PSI-BLAST/PHYLIP output.")
+                  "REFORMAT STABILITY (`<fmt>_read_in_domain_*`, `<fmt>_reformat_stable_*`): for EVERY input the reader accepts, the alignment it returns lies in the writer's proved domain, so "
+                  "read(write(read x)) = project(read x) - for A2M and aligned FASTA under the explicit side condition that no header line holds a bare CR/LF-adjacent byte (`a2mHdrOkB`, "
+                  "`afaHdrOkB`; aligned FASTA text mode also `afaNoGtB`: no '>' residue), for Clustal under `cluNamesNeB` (no empty name) and the not-a-consensus-line condition, for "
+                  "PSI-BLAST partially (no lower-case residue); each side condition is shown necessary by a proved counter-example on the model (listed in DESIGN / the report). "
+                  "NOT PROVED (monitors + executable models only): Stockholm/Pfam weights (#=GS WT; the reader model keeps set/unset only) and multi-line #=GS values; A2M with separate "
+                  "accessions; reformat stability for SELEX, PHYLIP, Stockholm; numeric VALUE of weights and cut-offs (the reader model keeps set/unset); autodetection of SELEX/PSI-BLAST/PHYLIP output.")
     level_note = ("Lean models of ALL ten writers (incl. stockholm_write with margins, wrapping, unique-name forcing and exact printf %.2f/%.1f; PHYLIP with ESL_MSAFILE_FMTDATA namewidth/rpl) "
                   "and ten readers are compared byte for byte / field for field with the library on every case. printf/strtod of 2-/1-decimal weights and cut-offs is trusted "
                   "(cutoff_token_accepted proves that %.1f of any finite float is a token the cut-off parser accepts). Known finding C03:stockholm:first-mention-order: the Stockholm reader numbers "
@@ -319,6 +340,15 @@ class C03(Prop):
                   "ops": ["rt fmt=stockholm abc=text n=3 alen=3 nm=61,61,62 sq=414347,412d47,414141 w=3ff8000000000000,4000000000000000,3fe0000000000000 gs=4452:~,~,7171"]})
         c.append({"name": "a2m-lowercase-o", "ops": ["rt fmt=a2m abc=text n=2 alen=4 nm=61,62 sq=41436f45,41434445",
                                                        "rt fmt=a2m abc=text n=2 alen=4 nm=61,62 sq=412d4745,416f4745"]})
+        # reformat path (read -> write -> read), confirmed defects of the library (known findings; each reproduced with esl-reformat)
+        rf = lambda name, key, fmt, data, abc="text": c.append({"name": name, "known_key": key, "ops": ["reformat fmt=%s abc=%s hex=%s" % (fmt, abc, data.hex())]})
+        rf("known-reformat-afa-gt", "C03:reformat:afa-gt-residue", "afa", b">a\n" + b"A" * 60 + b">\n")
+        rf("known-reformat-afa-cr", "C03:reformat:header-trailing-cr", "afa", b">a x\r\r\nAC\n")
+        rf("known-reformat-a2m-cr", "C03:reformat:header-trailing-cr", "a2m", b">a x\r\r\nAC\n")
+        rf("known-reformat-clustal-nul-name", "C03:reformat:nul-in-name", "clustal", b"CLUSTAL W alignment\n\n\x00x ACGT\n   ****\n")
+        rf("known-reformat-psiblast-nul-name", "C03:reformat:nul-in-name", "psiblast", b"\x00x ACGT\n")
+        rf("known-reformat-clustal-consensus-lookalike", "C03:reformat:clustal-consensus-lookalike", "clustal",
+           b"CLUSTAL W alignment\n\nx  " + b"A" * 61 + b"\n*  " + b"A" * 60 + b"*\n   " + b"*" * 61 + b"\n")
         return c
 
     def cases(self, ctx):
@@ -347,6 +377,32 @@ class C03(Prop):
             stats["nseq_max"] = max(stats["nseq_max"], a.n); stats["alen_max"] = max(stats["alen_max"], a.alen)
             if a.alen > 200: stats["multi_block"] += 1
             out.append({"name": "grow%d-%s-%s" % (i, fmt, abc), "dup": False, "ops": ["rt fmt=%s abc=%s " % (fmt, abc) + " ".join(aln_fields(a))]})
+        # zero columns (esl-reformat --nogap on an all-gap alignment hands the writers alen = 0): outside the round-trip property, but no writer may
+        # fail or raise (fc170bb: text-mode Clustal zero-malloc); bytes and the reader's verdict are compared with the model, every format, text + digital
+        for i in range(40 if quick else 400):
+            fmt = ALL_FORMATS[i % len(ALL_FORMATS)]
+            abc = ("text", "dna", "amino", "text")[(i // len(ALL_FORMATS)) % 4]
+            a = G.rand_aln(rng, "dna" if abc != "amino" else "amino", rng.choice([1, 2, 3, 17]), 0, maxname=10,
+                           namechars="abcdefghijklmnopqrstuvwxyzABCDEFGHIJKLMNOPQRSTUVWXYZ0123456789_")
+            if fmt in ("afa", "a2m") and rng.random() < 0.5: a.desc = ["d%d" % k for k in range(a.n)]
+            stats["alen0"] = stats.get("alen0", 0) + 1
+            out.append({"name": "alen0-%d-%s-%s" % (i, fmt, abc), "dup": False,
+                        "ops": ["rt fmt=%s abc=%s %s" % (fmt, abc, "via=direct " if i % 3 == 0 else "") + " ".join(aln_fields(a))]})
+        # the reformat path (what esl-reformat does): a VALID file of the format (independent python writers, every wrap width, CRLF, annotation)
+        # is read, the alignment the READER returned is written, and the output is read back: accepted, and the same alignment
+        # (theorems <fmt>_reformat_stable_*; Stockholm/Pfam are left to the rt op: first-mention-order finding)
+        REFMT = [f for f in ALL_FORMATS if f not in ("stockholm", "pfam")]
+        for i in range(320 if quick else 5000):
+            fmt = REFMT[i % len(REFMT)]
+            data, a = G.valid_file(rng, fmt, small=rng.random() < 0.8)
+            if fmt in ("clustal", "clustallike") and any(all(ch in ".:*" for ch in nm) for nm in a.names): continue
+            kindabc = {"amino": "amino", "dna": "dna", "rna": "rna"}
+            abc = rng.choice(["text", "text", "guesskind"])
+            if abc == "guesskind":
+                rows = "".join(a.rows).upper()
+                abc = "rna" if "U" in rows and set(rows) <= set("ACGURYMKSWHBVDN-._~*") else ("dna" if set(rows) <= set("ACGTRYMKSWHBVDN-._~*") else "amino")
+            stats["reformat"] = stats.get("reformat", 0) + 1
+            out.append({"name": "reformat%d-%s-%s" % (i, fmt, abc), "dup": False, "ops": ["reformat fmt=%s abc=%s hex=%s" % (fmt, abc, data.hex() or "-")]})
         # every writer op called DIRECTLY (esl_msafile_<fmt>_Write instead of the esl_msafile_Write dispatch), all ten formats x text/digital,
         # and the PHYLIP writers' format options (ESL_MSAFILE_FMTDATA namewidth / rpl; 0 = unset) with the reader opened at the same name width
         nd = 400 if quick else 6000
@@ -396,7 +452,7 @@ class C03(Prop):
         return None
 
     def nontrivial(self, case, out):
-        return any(" rd=ok " in l and " rw=same" in l for l in out)
+        return any(" rd=ok " in l and (" rw=same" in l or " same=yes" in l) for l in out)
 
     @staticmethod
     def _kv(op):
@@ -414,6 +470,18 @@ class C03(Prop):
             kv = self._kv(op)
             fmt, abc = kv["fmt"], kv.get("abc", "text")
             what = "fmt=%s abc=%s" % (fmt, abc)
+            if op.startswith("reformat "):
+                toks = l.split()
+                t = dict(x.split("=", 1) for x in toks if "=" in x and not x.startswith("{"))
+                if " leak" in l: return Failure("monitor", "memory leaked on the reformat path (%s)" % what)
+                if any(x.startswith("exc=") for x in toks): return Failure("monitor", "internal exception on the reformat path (%s)" % what)
+                if t.get("open") != "ok" or not t.get("rd", "").startswith("ok"): continue          # the input is not an alignment of this format: not a case
+                if t.get("chk") != "ok" or t.get("val") != "ok": return Failure("monitor", "alignment read is not well formed chk=%s val=%s (%s)" % (t.get("chk"), t.get("val"), what))
+                if t.get("wr") != "ok": return Failure("monitor", "writing an alignment the reader returned gave %s (%s)" % (t.get("wr"), what))
+                if t.get("open2") != "ok" or not t.get("rd2", "").startswith("ok"):
+                    return Failure("monitor", "reformat: the library rejects its own output for an alignment its reader returned: open2=%s rd2=%s (%s)" % (t.get("open2"), t.get("rd2"), what))
+                if t.get("same") != "yes": return Failure("monitor", "reformat: read(write(read x)) differs from read x (%s)" % what)
+                continue
             opts = kv.get("via") == "direct" and ("nw" in kv or "rpl" in kv) and fmt in ("phylip", "phylips")
             nw = (int(kv.get("nw", 0)) or 10) if opts else 10            # PHYLIP writer options (0 = unset)
             rpl = (int(kv.get("rpl", 0)) or 60) if opts else 60
@@ -425,6 +493,7 @@ class C03(Prop):
             if any(x.startswith("exc=") for x in toks): return Failure("monitor", "internal exception in write/read round trip (%s): %s" % (what, [x for x in toks if x.startswith("exc=")]))
             if t.get("build") != "ok": continue          # the generated text is not digitizable in this alphabet: not a case
             if t.get("wr") != "ok": return Failure("monitor", "write returned %s (%s)" % (t.get("wr"), what))
+            if kv.get("alen") == "0": continue        # zero columns: outside the property's quantifier (1..700 columns); the writers must not fail, bytes are compared with the model
             if t.get("open") != "ok": return Failure("monitor", "library-written output not opened: %s (%s)" % (t.get("open"), what))
             if not t.get("rd", "").startswith("ok"): return Failure("monitor", "library-written output rejected by the reader: rd=%s (%s)" % (t.get("rd"), what))
             if t.get("chk") != "ok" or t.get("val") != "ok": return Failure("monitor", "re-read alignment not well formed chk=%s val=%s (%s)" % (t.get("chk"), t.get("val"), what))
